@@ -9,10 +9,15 @@
    - `src notify name` takes exactly the registrations on (src, name) that exist at that
      moment out of the set: their threads are resumed, each ONCE, ordered by the sequence
      number of the thread's LATEST registration on (src, name); nothing else is resumed, and
-     with no such registration nothing changes.
+     with no such registration nothing changes.  The OTHER registrations of the threads so
+     picked are cancelled at that moment (waittill_any: the first notify wins): a cancelled
+     registration is never matched again; it is withdrawn when its thread proceeds or dies.
    - removing src takes all registrations on src out of the set: their threads are destroyed.
-   - a thread that proceeds or dies loses all its registrations (waittill_any: the first
-     notify wins, the others are cancelled).
+   - a thread that proceeds or dies loses all its registrations.
+   The implementation keeps a cancelled registration in its tables until the thread really
+   proceeds, and DOES match it (finding: a nested notify wakes the thread a second time).
+   The specification records in [stale] that a notify or a removal met a cancelled
+   registration: from then on model and specification may differ.
    - a timed wait is resumed by an Execute whose frame time has reached its due time, the
      minimal (due, seq) first.
 
@@ -24,7 +29,7 @@ From Morfuse Require Import Base.Arr C07.Model.
 Import ListNotations.
 Local Open Scope N_scope.
 
-Record reg := mkReg { rseq : N; rw : N; rsrc : lid; rn : name }.
+Record reg := mkReg { rseq : N; rw : N; rsrc : lid; rn : name; rz : bool }.   (* rz: cancelled *)
 Record tw := mkTw { wtid : N; wdue : N; wseq : N }.
 
 Record ast := mkAst {
@@ -32,15 +37,18 @@ Record ast := mkAst {
   nseq : N;             (* next registration number *)
   pend : list tw;       (* the timed waits, by increasing sequence number *)
   frame : N;            (* the engine's frame time *)
-  tseq : N }.
+  tseq : N;
+  sflag : bool }.       (* a cancelled registration was matched *)
 
-Definition ast_init : ast := mkAst [] 0 [] 0 0.
+Definition ast_init : ast := mkAst [] 0 [] 0 0 false.
 
 Definition on_src (src : lid) (n : name) (r : reg) : bool := lid_eqb src (rsrc r) && name_eqb n (rn r).
 Definition of_w (w : N) (n : name) (r : reg) : bool := (w =? rw r) && name_eqb n (rn r).
 
 Definition waiters_of (src : lid) (n : name) (l : list reg) : list lid :=
   map (fun r => LThr (rw r)) (filter (on_src src n) l).
+Definition live_waiters_of (src : lid) (n : name) (l : list reg) : list lid :=
+  map (fun r => LThr (rw r)) (filter (fun r => on_src src n r && negb (rz r)) l).
 Definition sources_of (w : N) (n : name) (l : list reg) : list lid :=
   map rsrc (filter (of_w w n) l).
 
@@ -55,29 +63,37 @@ Fixpoint first_occ (l seen : list lid) : list lid :=
 Definition by_last (l : list lid) : list lid := rev (first_occ (rev l) []).
 
 Definition a_reg (src : lid) (n : name) (w : N) (x : ast) : ast :=
-  mkAst (regs x ++ [mkReg (nseq x) w src n]) (nseq x + 1) (pend x) (frame x) (tseq x).
+  mkAst (regs x ++ [mkReg (nseq x) w src n false]) (nseq x + 1) (pend x) (frame x) (tseq x) (sflag x).
+
+(* cancel the registrations of the threads in [ws] *)
+Definition cancel_of (ws : list lid) (r : reg) : reg :=
+  if lmem (LThr (rw r)) ws then mkReg (rseq r) (rw r) (rsrc r) (rn r) true else r.
 
 Definition a_waiting (w : N) (x : ast) : bool := existsb (fun r => w =? rw r) (regs x).
 
 Definition a_detach (src : lid) (n : name) (x : ast) : ast * list lid :=
-  (mkAst (filter (fun r => negb (on_src src n r)) (regs x)) (nseq x) (pend x) (frame x) (tseq x),
-   by_last (waiters_of src n (regs x))).
+  let ws := by_last (live_waiters_of src n (regs x)) in
+  (mkAst (map (cancel_of ws) (filter (fun r => negb (on_src src n r)) (regs x)))
+         (nseq x) (pend x) (frame x) (tseq x)
+         (sflag x || existsb rz (filter (on_src src n) (regs x))),
+   ws).
 
 Definition a_detach_all (src : lid) (x : ast) : ast * list lid :=
-  (mkAst (filter (fun r => negb (lid_eqb src (rsrc r))) (regs x)) (nseq x) (pend x) (frame x) (tseq x),
-   rev (flat_map (fun n => first_occ (rev (waiters_of src n (regs x))) []) all_names)).
+  (mkAst (filter (fun r => negb (lid_eqb src (rsrc r))) (regs x)) (nseq x) (pend x) (frame x) (tseq x)
+         (sflag x || existsb rz (filter (fun r => lid_eqb src (rsrc r)) (regs x))),
+   rev (flat_map (fun n => first_occ (rev (live_waiters_of src n (regs x))) []) all_names)).
 
 Definition a_cancel0 (w : N) (x : ast) : ast * list lid :=
-  (mkAst (filter (fun r => negb (of_w w NE r)) (regs x)) (nseq x) (pend x) (frame x) (tseq x),
+  (mkAst (filter (fun r => negb (of_w w NE r)) (regs x)) (nseq x) (pend x) (frame x) (tseq x) (sflag x),
    by_last (sources_of w NE (regs x))).
 
 Definition a_cancel_rest (w : N) (x : ast) : ast * list lid :=
-  (mkAst (filter (fun r => negb (w =? rw r)) (regs x)) (nseq x) (pend x) (frame x) (tseq x),
+  (mkAst (filter (fun r => negb (w =? rw r)) (regs x)) (nseq x) (pend x) (frame x) (tseq x) (sflag x),
    rev (flat_map (fun n => first_occ (rev (sources_of w n (regs x))) []) all_names)).
 
 (* ---- timed waits: the due-time bag of C06 *)
 Definition a_tadd (w d : N) (x : ast) : ast :=
-  mkAst (regs x) (nseq x) (pend x ++ [mkTw w (frame x + d) (tseq x)]) (frame x) (tseq x + 1).
+  mkAst (regs x) (nseq x) (pend x ++ [mkTw w (frame x + d) (tseq x)]) (frame x) (tseq x + 1) (sflag x).
 
 (* the latest timed wait of the thread is withdrawn *)
 Fixpoint remove_first_tw (w : N) (l : list tw) : list tw :=
@@ -86,7 +102,7 @@ Fixpoint remove_first_tw (w : N) (l : list tw) : list tw :=
   | e :: l' => if wtid e =? w then l' else e :: remove_first_tw w l'
   end.
 Definition a_tremove (w : N) (x : ast) : ast :=
-  mkAst (regs x) (nseq x) (rev (remove_first_tw w (rev (pend x)))) (frame x) (tseq x).
+  mkAst (regs x) (nseq x) (rev (remove_first_tw w (rev (pend x)))) (frame x) (tseq x) (sflag x).
 
 Definition w_ltb (a c : tw) : bool :=
   (wdue a <? wdue c) || ((wdue a =? wdue c) && (wseq a <? wseq c)).
@@ -105,16 +121,17 @@ Definition a_tpop (x : ast) : ast * option N :=
   | e :: r =>
       let m := min_w e r in
       if frame x <? wdue m then (x, None)
-      else (mkAst (regs x) (nseq x) (remove_w (wseq m) (pend x)) (frame x) (tseq x), Some (wtid m))
+      else (mkAst (regs x) (nseq x) (remove_w (wseq m) (pend x)) (frame x) (tseq x) (sflag x), Some (wtid m))
   end.
 
-Definition a_settime (t : N) (x : ast) : ast := mkAst (regs x) (nseq x) (pend x) t (tseq x).
+Definition a_settime (t : N) (x : ast) : ast := mkAst (regs x) (nseq x) (pend x) t (tseq x) (sflag x).
 
 Definition a_regsize (src : lid) (n : name) (x : ast) : nat := length (filter (on_src src n) (regs x)).
 Definition a_timing (x : ast) : bool := negb (is_nil (pend x)).
 
 Definition spec_prims : prims ast :=
   mkPrims ast a_reg a_waiting a_detach a_detach_all a_cancel0 a_cancel_rest a_tadd a_tremove
-          a_tpop a_tpop a_settime a_regsize a_timing.
+          a_tpop a_tpop a_settime a_regsize a_timing
+          (fun v => match v with RPtr => RNil | _ => v end) sflag.
 
 Definition spec_run (ops : list op) : list (option obs) := run_from spec_prims ast_init sh_init ops.
